@@ -4,10 +4,10 @@
 
    order  = [clord, [orig]?, [order_id]?, qty, cum, leaves, price, side, ticker, account, status]
    args   = [[clord]?, exec, status, [cum]?, [leaves]?, [last]?, [price]?, [order_qty]?, [orig]?, avg]
-   state  = [order_id counter, exec_id counter, [registered keys]]
+   state  = [order_id counter, exec_id counter, [registered keys], [[root ClOrdID, OrderID] ...]]
    msg    = [[tag, 0, text] | [tag, 1, number] ...]
 
-   [1, u, state, order, args]       -> [1, msg, oid', eid'] | [0, [], oid', eid']   (AssertionError)
+   [1, u, state, order, args]       -> [1, msg, oid', eid', oids'] | [0, [], oid', eid', oids']   (AssertionError)
    [2, msg_type, [clord]?, [orig]?, status] -> [1, msg] | [2] (TagNotFoundError) | [3] (AssertionError)
    [3, k, ...]                      -> [msg_type, msg]   session message factories
    [4, order, msg]                  -> [outcome, order'] process_execution_report
@@ -61,11 +61,23 @@ Definition get_args (s : sx) : option eargs :=
   | _ => None
   end.
 
-Definition get_state (s : sx) : option tstate :=
+Definition get_oid_entry (s : sx) : option (str * Z) :=
   match s with
-  | SL [SI oid; SI eid; reg] => option_map (mkT oid eid) (get_list get_str reg)
+  | SL [k; SI v] => option_map (fun k => (k, v)) (get_str k)
   | _ => None
   end.
+
+Definition get_state (s : sx) : option tstate :=
+  match s with
+  | SL [SI oid; SI eid; reg; oids] =>
+      match get_list get_str reg, get_list get_oid_entry oids with
+      | Some reg, Some oids => Some (mkT oid eid reg oids)
+      | _, _ => None
+      end
+  | _ => None
+  end.
+
+Definition sx_oids (t : tstate) : sx := SL (map (fun e => SL [sx_of_str (fst e); SI (snd e)]) (t_oids t)).
 
 Definition sx_outcome (r : outcome) : sx :=
   match r with
@@ -87,8 +99,8 @@ Definition run (req : sx) : sx :=
       match get_state st, get_order o, get_args a with
       | Some st, Some o, Some a =>
           match fix_exec_report_msg u st o a with
-          | Ok m t' => SL [SI 1; sx_msg m; SI (t_oid t'); SI (t_eid t')]
-          | AssertionFailed t' => SL [SI 0; SL []; SI (t_oid t'); SI (t_eid t')]
+          | Ok m t' => SL [SI 1; sx_msg m; SI (t_oid t'); SI (t_eid t'); sx_oids t']
+          | AssertionFailed t' => SL [SI 0; SL []; SI (t_oid t'); SI (t_eid t'); sx_oids t']
           end
       | _, _, _ => err_sx 1
       end
